@@ -127,6 +127,23 @@ fn run(route: &str, text: &str, lit: &str) -> Result<Result<String, String>, Str
             let b = conjure_serde::smile::to_vec(&vec![parse!(u128)]).map_err(e)?;
             conjure_serde::smile::server_from_slice::<Vec<SafeLong>>(&b).map_err(e).and_then(|v| ok(v[0]))
         }
+        // the parameter decoders of generated servers: path / query values and header values, single and optional.
+        // "absent" (an optional decoder answering None for a value that is there) is an answer of its own: not an error.
+        "dec_param" | "dec_param_opt" | "dec_param_seq" | "dec_header" | "dec_header_opt" => {
+            use conjure_http::server::conjure::{FromPlainDecoder, FromPlainOptionDecoder, FromPlainSeqDecoder};
+            use conjure_http::server::{DecodeHeader, DecodeParam};
+            let rt = conjure_http::server::ConjureRuntime::new();
+            let hv = http::HeaderValue::from_str(lit).map_err(e)?;
+            let ce = |x: conjure_error::Error| format!("{:?}", x.cause());
+            let absent = || Ok("absent".to_string());
+            match route {
+                "dec_param" => <FromPlainDecoder as DecodeParam<SafeLong>>::decode(&rt, [lit]).map_err(ce).and_then(ok),
+                "dec_param_opt" => <FromPlainOptionDecoder as DecodeParam<Option<SafeLong>>>::decode(&rt, [lit]).map_err(ce).and_then(|o| o.map(ok).unwrap_or_else(absent)),
+                "dec_param_seq" => <FromPlainSeqDecoder<SafeLong> as DecodeParam<Vec<SafeLong>>>::decode(&rt, [lit, lit]).map_err(ce).and_then(|v| v.first().cloned().map(ok).unwrap_or_else(absent)),
+                "dec_header" => <FromPlainDecoder as DecodeHeader<SafeLong>>::decode(&rt, [&hv]).map_err(ce).and_then(ok),
+                _ => <FromPlainOptionDecoder as DecodeHeader<Option<SafeLong>>>::decode(&rt, [&hv]).map_err(ce).and_then(|o| o.map(ok).unwrap_or_else(absent)),
+            }
+        }
         other => return Err(format!("unknown route {other}")),
     })
 }
